@@ -14,6 +14,7 @@ import (
 
 	"github.com/notaryproject/notation-go"
 	"github.com/notaryproject/notation-go/verifier"
+	pf "github.com/notaryproject/notation-plugin-framework-go/plugin"
 	"pgregory.net/rapid"
 
 	"verifharness/internal/envb"
@@ -41,6 +42,9 @@ type Case struct {
 	Format string     `json:"format"`
 	Scheme string     `json:"scheme"`
 	Warm   string     `json:"warm,omitempty"` // earlier verification on the same verifier: "", matching-leaf, unrelated-leaf
+	// Plugin "rev-only": the signature names a verification plugin that owns only the revocation check
+	// (and answers success); the identity check stays notation's own and its verdict must not change
+	Plugin string `json:"plugin,omitempty"`
 }
 
 var namedTypes = []string{"C", "ST", "O", "OU", "CN", "L", "STREET", "POSTALCODE", "SERIALNUMBER"}
@@ -55,6 +59,13 @@ func setup() {
 }
 
 // caSubject returns the structured subject of a CA of the chain (as pki.NewChain builds it).
+func pluginAttr(c Case) []envb.Attr {
+	if c.Plugin == "" {
+		return nil
+	}
+	return []envb.Attr{{Key: envb.AttrPlugin, Critical: true, Value: "c04-plugin"}}
+}
+
 func caSubject(pos int) []pki.AV {
 	cn := "CA-ORG root"
 	if pos == 1 {
@@ -238,7 +249,7 @@ func run(c Case) (authErr error, herr error) {
 	}
 	desc := kit.Artifact("c04")
 	env := envb.Build(envb.Spec{Format: c.Format, Payload: envb.PayloadFor(desc.MediaType, desc.Digest.String(), desc.Size, nil), ContentType: envb.PayloadType,
-		Scheme: scheme, SigningTime: leaf.Cert.NotBefore.Add(23 * 3600 * 1e9), Chain: append(x509s(leaf), caChain.X509()[1:]...), Key: leaf.Key})
+		Scheme: scheme, SigningTime: leaf.Cert.NotBefore.Add(23 * 3600 * 1e9), Chain: append(x509s(leaf), caChain.X509()[1:]...), Key: leaf.Key, Ext: pluginAttr(c)})
 	var ids []string
 	for _, id := range c.Idents {
 		ids = append(ids, id.Text)
@@ -246,6 +257,10 @@ func run(c Case) (authErr error, herr error) {
 	opts := kit.Options()
 	opts.OCITrustPolicy = kit.OCIDoc("p", kit.Level{Base: "strict"}.SV(""), []string{storeType + ":x"}, ids)
 	ts := mocks.NewTrustStore().Put(storeType, "x", caChain.Root().Cert)
+	if c.Plugin == "rev-only" {
+		opts.PluginManager = &mocks.Manager{Plugins: map[string]pf.Plugin{"c04-plugin": &mocks.Plugin{Name: "c04-plugin", Version: "1.0.0",
+			Capabilities: []pf.Capability{pf.CapabilityRevocationCheckVerifier}}}}
+	}
 	v, err := verifier.NewVerifierWithOptions(ts, opts)
 	if err != nil {
 		return nil, fmt.Errorf("policy with identities %q rejected: %v", ids, err)
@@ -455,6 +470,7 @@ func identityProp(rec *stats.Recorder) func(rt *rapid.T) {
 			c.Idents = shuffled
 		}
 		c.Warm = rp.Pick(rt, "warm", "", "", "", "matching-leaf", "matching-leaf", "unrelated-leaf")
+		c.Plugin = rp.Pick(rt, "plugin", "", "", "", "rev-only")
 		want, either := modelPass(c)
 		// classes
 		cl := []string{"class=" + kind, "leaf=" + shape, "format=" + c.Format, "scheme=" + c.Scheme}
@@ -471,12 +487,15 @@ func identityProp(rec *stats.Recorder) func(rt *rapid.T) {
 		if c.Warm != "" {
 			cl = append(cl, "reused-verifier")
 		}
+		if c.Plugin != "" {
+			cl = append(cl, "plugin="+c.Plugin)
+		}
 		var idTexts []string
 		for _, id := range c.Idents {
 			idTexts = append(idTexts, id.Text)
 		}
 		sort.Strings(idTexts)
-		rec.Case(cl, kind != "wildcard", stats.Fingerprint(fmt.Sprint(c.Leaf), strings.Join(idTexts, "|"), c.Format, c.Scheme), func() any { return c })
+		rec.Case(cl, kind != "wildcard", stats.Fingerprint(fmt.Sprint(c.Leaf), strings.Join(idTexts, "|"), c.Format, c.Scheme, c.Warm, c.Plugin), func() any { return c })
 
 		authErr, herr := run(c)
 		if herr != nil {
